@@ -30,91 +30,200 @@ theorem UB_ne_fuel {α : Type} {r : Except Err α} (h : UB r) : r ≠ .error .fu
 theorem UB_not_ok {α : Type} {r : Except Err α} {a : α} (h : UB r) : r ≠ .ok a := by
   rcases h with h | h <;> rw [h] <;> intro e <;> cases e
 
-/-- the simulation relation between the Python store and the C store, for the names declared in `te` -/
+/-- the simulation relation between the Python store and the C store, for the names declared in `te`: the C store holds the
+    Python value converted to the declared type, and the Python value is one the declared type admits (`Ty.holds`) -/
 def Rel (te : C.TyEnv) (sp sc : Store) : Prop :=
   ∀ x t, te.lookup x = some t → ∀ pv, sp.get x = some pv →
-    sc.get x = some (C.conv t pv) ∧ (t = .bool → ∃ b, pv = .bool b)
+    sc.get x = some (C.conv t pv) ∧ t.holds pv = true
 
-theorem conv_truthy (t : Ty) (v : Val) : (C.conv t v).truthy = v.truthy := by
-  cases t <;> cases v <;> simp [C.conv, Val.truthy, Val.toInt]
+theorem conv_truthy (t : Ty) (v : Val) (h : t.holds v = true) : (C.conv t v).truthy = v.truthy := by
+  cases t <;> cases v <;> simp_all [C.conv, Val.truthy, Val.toInt, Ty.holds, Val.text]
 
-theorem conv_toInt (t : Ty) (v : Val) (h : t = .bool → ∃ b, v = .bool b) : (C.conv t v).toInt = v.toInt := by
-  cases t
-  · simp [C.conv, Val.toInt]
-  · obtain ⟨b, rfl⟩ := h rfl; simp [C.conv, Val.toInt, Val.truthy]
+theorem conv_toInt (t : Ty) (v : Val) (h : t.holds v = true) : (C.conv t v).toInt = v.toInt := by
+  cases t <;> cases v <;> simp_all [C.conv, Val.truthy, Val.toInt, Ty.holds, Val.text]
 
 theorem conv_idem (t : Ty) (v : Val) : C.conv t (C.conv t v) = C.conv t v := by
-  cases t <;> simp [C.conv, Val.toInt, Val.truthy]
+  cases t <;> simp [C.conv, Val.toInt, Val.truthy, Val.text]
 
 theorem conv_bool_bool (b : Bool) : C.conv .bool (.bool b) = .bool b := rfl
 theorem conv_int_int (n : Int) : C.conv .int (.int n) = .int n := rfl
+theorem conv_str_str (s : String) : C.conv .string (.str s) = .str s := rfl
+
+theorem holds_bool {v : Val} (h : Ty.bool.holds v = true) : ∃ b, v = .bool b := by
+  cases v <;> simp_all [Ty.holds]
+
+theorem holds_string {v : Val} (h : Ty.string.holds v = true) : ∃ s, v = .str s := by
+  cases v <;> simp_all [Ty.holds]
+
+/-- a value of a type other than `string` is a number -/
+theorem holds_num {t : Ty} {v : Val} (h : t.holds v = true) (ht : t ≠ .string) : v.isStr = false := by
+  cases t <;> cases v <;> simp_all [Ty.holds, Val.isStr]
+
+theorem holds_int_of_num {v : Val} (h : v.isStr = false) : Ty.int.holds v = true := by
+  cases v <;> simp_all [Ty.holds, Val.isStr]
+
+theorem num_ok {v : Val} {n : Int} (h : v.num = .ok n) : n = v.toInt ∧ v.isStr = false := by
+  cases v <;> simp_all [Val.num, Val.isStr] <;> (cases h; rfl)
+
+theorem num_of_not_str {v : Val} (h : v.isStr = false) : v.num = .ok v.toInt := by
+  cases v <;> simp_all [Val.num, Val.isStr]
+
+/-- the converted value of a number is a number -/
+theorem conv_isStr {t : Ty} {v : Val} (h : t.holds v = true) : (C.conv t v).isStr = v.isStr := by
+  cases t <;> cases v <;> simp_all [C.conv, Ty.holds, Val.isStr]
+
+theorem binopV_num {x y : Val} (hx : x.isStr = false) (hy : y.isStr = false) (op : BinOp) (m : C.Mode) :
+    C.binopV op x y m = C.binop op x.toInt y.toInt m := by
+  cases x <;> cases y <;> simp_all [C.binopV, Val.isStr]
+
+theorem pyEval_num {x y : Val} (hx : x.isStr = false) (hy : y.isStr = false) (op : BinOp) :
+    op.pyEval x y = if op.isDiv ∧ y.toInt = 0 then .error .zeroDiv else .ok (op.pyVal x y) := by
+  cases x <;> cases y <;> simp_all [BinOp.pyEval, Val.isStr]
+
+theorem cmp_pyEval_num {x y : Val} (hx : x.isStr = false) (hy : y.isStr = false) (op : CmpOp) :
+    op.pyEval x y = .ok (op.eval x.toInt y.toInt) := by
+  cases x <;> cases y <;> simp_all [CmpOp.pyEval, Val.isStr]
+
+theorem pyPick_num {x y : Val} (hx : x.isStr = false) (hy : y.isStr = false) (k : MinMax) :
+    k.pyPick x y = .ok (k.pick x y) := by
+  cases x <;> cases y <;> simp_all [MinMax.pyPick, Val.isStr]
+
+theorem pick_isStr {x y : Val} (hx : x.isStr = false) (hy : y.isStr = false) (k : MinMax) : (k.pick x y).isStr = false := by
+  cases k <;> simp only [MinMax.pick] <;> split <;> assumption
+
+theorem pyVal_isStr (op : BinOp) (x y : Val) : (op.pyVal x y).isStr = false := by
+  unfold BinOp.pyVal; split <;> rfl
+
+/-- the two shapes `Expr.binTyOk` admits -/
+theorem binTyOk_cases {te : C.TyEnv} {op : BinOp} {a b : Expr} (h : Expr.binTyOk te op a b = true) :
+    (inferTy te a ≠ .string ∧ inferTy te b ≠ .string) ∨ (op = .add ∧ inferTy te a = .string ∧ inferTy te b = .string) := by
+  simp only [Expr.binTyOk, Bool.or_eq_true, Bool.and_eq_true, bne_iff_ne, ne_eq, beq_iff_eq] at h
+  rcases h with h | h
+  · exact .inl h
+  · exact .inr ⟨h.1.1.1, h.1.1.2, h.1.2⟩
+
+theorem pyStr_text {t : Ty} {v : Val} {s : String} (hty : t.holds v = true) (hnb : t ≠ .bool) (h : v.pyStr = .ok s) :
+    (C.conv t v).text = s := by
+  cases t <;> cases v <;> simp_all [Ty.holds, Val.pyStr, C.conv, Val.text, Val.toInt] <;> (cases h; rfl)
 
 theorem typeOf_eq_inferTy (te : C.TyEnv) (e : Expr) (h : e.wt te = true) : C.typeOf te e = inferTy te e := by
   induction e with
+  | bin op a b iha ihb =>
+    simp only [Expr.wt, Bool.and_eq_true] at h
+    simp only [C.typeOf, inferTy, iha h.1.1, ihb h.1.2]
   | neg a _ =>
     simp only [Expr.wt, Bool.and_eq_true, beq_iff_eq] at h
     simp only [C.typeOf, inferTy, h.2]
   | ite c a b _ iha ihb =>
     simp only [Expr.wt, Bool.and_eq_true, beq_iff_eq] at h
-    simp only [C.typeOf, inferTy, iha h.1.1.2, ihb h.1.2]
+    simp only [C.typeOf, inferTy, iha h.1.1.1.2, ihb h.1.1.2]
   | mm k a b iha ihb =>
     simp only [Expr.wt, Bool.and_eq_true, beq_iff_eq] at h
     simp only [C.typeOf, inferTy, iha h.1.1.1, ihb h.1.1.2, h.1.2, h.2, if_true]
   | _ => simp only [C.typeOf, inferTy]
 
-/-- a bool-typed well-typed expression evaluates (in Python) to a bool -/
-theorem bool_val (te : C.TyEnv) (sp sc : Store) (hrel : Rel te sp sc) (e : Expr) (v : Val)
-    (hwt : e.wt te = true) (hty : inferTy te e = .bool) (hpy : Py.eval sp e = .ok v) : ∃ b, v = .bool b := by
+/-- type soundness of the Python side: a well-typed expression evaluates to a value its inferred type admits -/
+theorem typed_val (te : C.TyEnv) (sp sc : Store) (hrel : Rel te sp sc) (e : Expr) (v : Val)
+    (hwt : e.wt te = true) (hpy : Py.eval sp e = .ok v) : (inferTy te e).holds v = true := by
   induction e generalizing v with
-  | int n => simp [inferTy] at hty
-  | bool b => simp only [Py.eval] at hpy; cases hpy; exact ⟨b, rfl⟩
+  | int n => simp only [Py.eval] at hpy; cases hpy; rfl
+  | bool b => simp only [Py.eval] at hpy; cases hpy; rfl
+  | str s => simp only [Py.eval] at hpy; cases hpy; rfl
   | var x =>
     simp only [Expr.wt, Option.isSome_iff_exists] at hwt
     obtain ⟨t, ht⟩ := hwt
-    simp only [inferTy, ht, Option.getD_some] at hty
+    simp only [inferTy, ht, Option.getD_some]
     simp only [Py.eval] at hpy
     cases hg : sp.get x with
     | none => rw [hg] at hpy; cases hpy
     | some pv =>
       rw [hg] at hpy; cases hpy
-      exact (hrel x t ht v hg).2 hty
-  | bin op a b => simp [inferTy] at hty
+      exact (hrel x t ht v hg).2
+  | bin op a b iha ihb =>
+    simp only [Expr.wt, Bool.and_eq_true] at hwt
+    rw [Py.eval] at hpy
+    obtain ⟨x, hx, hpy⟩ := bind_ok hpy
+    obtain ⟨y, hy, hpy⟩ := bind_ok hpy
+    rcases binTyOk_cases hwt.2 with ⟨ha, hb⟩ | ⟨rfl, ha, hb⟩
+    · have hxs := holds_num (iha x hwt.1.1 hx) ha
+      have hys := holds_num (ihb y hwt.1.2 hy) hb
+      rw [pyEval_num hxs hys] at hpy
+      split at hpy
+      · cases hpy
+      · cases hpy
+        simp only [inferTy, ha, hb, or_self, if_false]
+        exact holds_int_of_num (pyVal_isStr _ _ _)
+    · obtain ⟨s, rfl⟩ := holds_string (ha ▸ iha x hwt.1.1 hx)
+      obtain ⟨t, rfl⟩ := holds_string (hb ▸ ihb y hwt.1.2 hy)
+      simp only [BinOp.pyEval, if_true] at hpy
+      cases hpy
+      simp only [inferTy, ha, true_or, if_true]; rfl
   | neg a _ =>
     simp only [Expr.wt, Bool.and_eq_true, beq_iff_eq] at hwt
-    simp only [inferTy, hwt.2] at hty; cases hty
+    rw [Py.eval] at hpy
+    obtain ⟨x, _, hpy⟩ := bind_ok hpy
+    obtain ⟨n, _, hpy⟩ := bind_ok hpy
+    cases hpy
+    simp only [inferTy, hwt.2]; rfl
   | cmp op a b =>
     rw [Py.eval] at hpy
     obtain ⟨x, _, hpy⟩ := bind_ok hpy
     obtain ⟨y, _, hpy⟩ := bind_ok hpy
-    cases hpy; exact ⟨_, rfl⟩
+    obtain ⟨r, _, hpy⟩ := bind_ok hpy
+    cases hpy; rfl
   | and a b iha ihb =>
     simp only [Expr.wt, Bool.and_eq_true, beq_iff_eq] at hwt
     rw [Py.eval] at hpy
     obtain ⟨x, hx, hpy⟩ := bind_ok hpy
+    simp only [inferTy]
     split at hpy
-    · exact ihb v hwt.1.1.2 hwt.2 hpy
-    · cases hpy; exact iha _ hwt.1.1.1 hwt.1.2 hx
+    · have := ihb v hwt.1.1.2 hpy; rw [hwt.2] at this; exact this
+    · cases hpy; have := iha _ hwt.1.1.1 hx; rw [hwt.1.2] at this; exact this
   | or a b iha ihb =>
     simp only [Expr.wt, Bool.and_eq_true, beq_iff_eq] at hwt
     rw [Py.eval] at hpy
     obtain ⟨x, hx, hpy⟩ := bind_ok hpy
+    simp only [inferTy]
     split at hpy
-    · cases hpy; exact iha _ hwt.1.1.1 hwt.1.2 hx
-    · exact ihb v hwt.1.1.2 hwt.2 hpy
+    · cases hpy; have := iha _ hwt.1.1.1 hx; rw [hwt.1.2] at this; exact this
+    · have := ihb v hwt.1.1.2 hpy; rw [hwt.2] at this; exact this
   | not a =>
     rw [Py.eval] at hpy
     obtain ⟨x, _, hpy⟩ := bind_ok hpy
-    cases hpy; exact ⟨_, rfl⟩
+    cases hpy; rfl
   | ite c a b _ iha ihb =>
     simp only [Expr.wt, Bool.and_eq_true, beq_iff_eq] at hwt
-    simp only [inferTy, hwt.2, if_true] at hty
+    simp only [inferTy, hwt.1.2, if_true]
     rw [Py.eval] at hpy
     obtain ⟨x, hx, hpy⟩ := bind_ok hpy
     split at hpy
-    · exact iha v hwt.1.1.2 (hwt.2 ▸ hty) hpy
-    · exact ihb v hwt.1.2 hty hpy
-  | abs a => simp [inferTy] at hty
-  | mm k a b => simp [inferTy] at hty
+    · exact hwt.1.2 ▸ iha v hwt.1.1.1.2 hpy
+    · exact ihb v hwt.1.1.2 hpy
+  | abs a =>
+    rw [Py.eval] at hpy
+    obtain ⟨x, _, hpy⟩ := bind_ok hpy
+    obtain ⟨n, _, hpy⟩ := bind_ok hpy
+    cases hpy; rfl
+  | mm k a b iha ihb =>
+    simp only [Expr.wt, Bool.and_eq_true, beq_iff_eq] at hwt
+    rw [Py.eval] at hpy
+    obtain ⟨x, hx, hpy⟩ := bind_ok hpy
+    obtain ⟨y, hy, hpy⟩ := bind_ok hpy
+    have hxs := holds_num (iha x hwt.1.1.1 hx) (by rw [hwt.1.2]; decide)
+    have hys := holds_num (ihb y hwt.1.1.2 hy) (by rw [hwt.2]; decide)
+    rw [pyPick_num hxs hys] at hpy
+    cases hpy
+    exact holds_int_of_num (pick_isStr hxs hys k)
+  | toStr a =>
+    rw [Py.eval] at hpy
+    obtain ⟨x, _, hpy⟩ := bind_ok hpy
+    obtain ⟨t, _, hpy⟩ := bind_ok hpy
+    cases hpy; rfl
+
+/-- a bool-typed well-typed expression evaluates (in Python) to a bool -/
+theorem bool_val (te : C.TyEnv) (sp sc : Store) (hrel : Rel te sp sc) (e : Expr) (v : Val)
+    (hwt : e.wt te = true) (hty : inferTy te e = .bool) (hpy : Py.eval sp e = .ok v) : ∃ b, v = .bool b :=
+  holds_bool (hty ▸ typed_val te sp sc hrel e v hwt hpy)
 
 theorem chk_cases (r : Int) : C.chk r = .ok (.int r) ∨ UB (C.chk r) := by
   unfold C.chk UB; split <;> simp
@@ -128,9 +237,9 @@ theorem conv_pyVal (op : BinOp) (x y : Val) : C.conv .int (op.pyVal x y) = .int 
   show Val.int (op.pyVal x y).toInt = _
   rw [pyVal_toInt]
 
-theorem pyEval_ok {op : BinOp} {x y v : Val} (h : op.pyEval x y = .ok v) :
+theorem pyEval_ok {op : BinOp} {x y v : Val} (hx : x.isStr = false) (hy : y.isStr = false) (h : op.pyEval x y = .ok v) :
     v = op.pyVal x y ∧ (op.isDiv = true → y.toInt ≠ 0) := by
-  unfold BinOp.pyEval at h
+  rw [pyEval_num hx hy] at h
   split at h
   · cases h
   · rename_i hz
@@ -177,6 +286,7 @@ theorem expr_sim (te : C.TyEnv) (sp sc : Store) (hrel : Rel te sp sc) (e : Expr)
   induction e generalizing v with
   | int n => simp only [Py.eval] at hpy; cases hpy; left; rfl
   | bool b => simp only [Py.eval] at hpy; cases hpy; left; rfl
+  | str s => simp only [Py.eval] at hpy; cases hpy; left; rfl
   | var x =>
     simp only [Expr.wt, Option.isSome_iff_exists] at hwt
     obtain ⟨t, ht⟩ := hwt
@@ -192,42 +302,60 @@ theorem expr_sim (te : C.TyEnv) (sp sc : Store) (hrel : Rel te sp sc) (e : Expr)
     rw [Py.eval] at hpy
     obtain ⟨x, hx, hpy⟩ := bind_ok hpy
     obtain ⟨y, hy, hpy⟩ := bind_ok hpy
-    obtain ⟨rfl, hz⟩ := pyEval_ok hpy
+    have htx := typed_val te sp sc hrel a x hwt.1.1 hx
+    have hty := typed_val te sp sc hrel b y hwt.1.2 hy
     rw [C.eval]
-    rcases iha x hwt.1 hx with h | h
+    rcases iha x hwt.1.1 hx with h | h
     · rw [h, ok_bind]
-      rcases ihb y hwt.2 hy with h' | h'
-      · rw [h', ok_bind,
-          conv_toInt _ x (fun ht => bool_val te sp sc hrel a x hwt.1 ht hx),
-          conv_toInt _ y (fun ht => bool_val te sp sc hrel b y hwt.2 ht hy)]
-        simp only [inferTy, conv_pyVal]
-        exact binop_cases _ _ _ hz
+      rcases ihb y hwt.1.2 hy with h' | h'
+      · rw [h', ok_bind]
+        rcases binTyOk_cases hwt.2 with ⟨ha, hb⟩ | ⟨rfl, ha, hb⟩
+        · have hxs := holds_num htx ha
+          have hys := holds_num hty hb
+          obtain ⟨rfl, hz⟩ := pyEval_ok hxs hys hpy
+          rw [binopV_num (by rw [conv_isStr htx]; exact hxs) (by rw [conv_isStr hty]; exact hys),
+            conv_toInt _ x htx, conv_toInt _ y hty]
+          simp only [inferTy, ha, hb, or_self, if_false, conv_pyVal]
+          exact binop_cases _ _ _ hz
+        · -- `+` on two strings: concatenation on both sides
+          rw [ha] at htx; rw [hb] at hty
+          obtain ⟨s, rfl⟩ := holds_string htx
+          obtain ⟨t, rfl⟩ := holds_string hty
+          simp only [BinOp.pyEval, if_true] at hpy
+          cases hpy
+          left
+          simp only [inferTy, ha, hb, true_or, if_true, conv_str_str, C.binopV]
       · right; exact ub_bind _ h'
     · right; exact ub_bind _ h
   | neg a iha =>
     simp only [Expr.wt, Bool.and_eq_true, beq_iff_eq] at hwt
     rw [Py.eval] at hpy
     obtain ⟨x, hx, hpy⟩ := bind_ok hpy
+    obtain ⟨n, hn, hpy⟩ := bind_ok hpy
+    obtain ⟨rfl, _⟩ := num_ok hn
     cases hpy
     rw [C.eval]
     rcases iha x hwt.1 hx with h | h
-    · rw [h, ok_bind, conv_toInt _ x (fun ht => bool_val te sp sc hrel a x hwt.1 ht hx)]
+    · rw [h, ok_bind, conv_toInt _ x (typed_val te sp sc hrel a x hwt.1 hx)]
       simp only [inferTy, hwt.2, conv_int_int]
       exact chk_cases _
     · right; exact ub_bind _ h
   | cmp op a b iha ihb =>
-    simp only [Expr.wt, Bool.and_eq_true] at hwt
+    simp only [Expr.wt, Bool.and_eq_true, bne_iff_ne, ne_eq] at hwt
     rw [Py.eval] at hpy
     obtain ⟨x, hx, hpy⟩ := bind_ok hpy
     obtain ⟨y, hy, hpy⟩ := bind_ok hpy
+    obtain ⟨r, hr, hpy⟩ := bind_ok hpy
+    have htx := typed_val te sp sc hrel a x hwt.1.1.1 hx
+    have hty := typed_val te sp sc hrel b y hwt.1.1.2 hy
+    rw [cmp_pyEval_num (holds_num htx hwt.1.2) (holds_num hty hwt.2)] at hr
+    cases hr
     cases hpy
     rw [C.eval]
-    rcases iha x hwt.1 hx with h | h
+    rcases iha x hwt.1.1.1 hx with h | h
     · rw [h, ok_bind]
-      rcases ihb y hwt.2 hy with h' | h'
-      · rw [h', ok_bind,
-          conv_toInt _ x (fun ht => bool_val te sp sc hrel a x hwt.1 ht hx),
-          conv_toInt _ y (fun ht => bool_val te sp sc hrel b y hwt.2 ht hy)]
+      rcases ihb y hwt.1.1.2 hy with h' | h'
+      · rw [h', ok_bind, conv_toInt _ x htx, conv_toInt _ y hty]
         left; rfl
       · right; exact ub_bind _ h'
     · right; exact ub_bind _ h
@@ -237,12 +365,12 @@ theorem expr_sim (te : C.TyEnv) (sp sc : Store) (hrel : Rel te sp sc) (e : Expr)
     obtain ⟨x, hx, hpy⟩ := bind_ok hpy
     rw [C.eval]
     rcases iha x hwt.1.1.1 hx with h | h
-    · rw [h, ok_bind, conv_truthy]
+    · rw [h, ok_bind, conv_truthy _ _ (typed_val te sp sc hrel a x hwt.1.1.1 hx)]
       split at hpy
       · rename_i htr
         rw [if_pos htr]
         rcases ihb v hwt.1.1.2 hpy with h' | h'
-        · rw [h', ok_bind, conv_truthy]; left; rfl
+        · rw [h', ok_bind, conv_truthy _ _ (typed_val te sp sc hrel b v hwt.1.1.2 hpy)]; left; rfl
         · right; exact ub_bind _ h'
       · rename_i htr
         rw [if_neg htr]
@@ -257,7 +385,7 @@ theorem expr_sim (te : C.TyEnv) (sp sc : Store) (hrel : Rel te sp sc) (e : Expr)
     obtain ⟨x, hx, hpy⟩ := bind_ok hpy
     rw [C.eval]
     rcases iha x hwt.1.1.1 hx with h | h
-    · rw [h, ok_bind, conv_truthy]
+    · rw [h, ok_bind, conv_truthy _ _ (typed_val te sp sc hrel a x hwt.1.1.1 hx)]
       split at hpy
       · rename_i htr
         rw [if_pos htr]
@@ -267,17 +395,17 @@ theorem expr_sim (te : C.TyEnv) (sp sc : Store) (hrel : Rel te sp sc) (e : Expr)
       · rename_i htr
         rw [if_neg htr]
         rcases ihb v hwt.1.1.2 hpy with h' | h'
-        · rw [h', ok_bind, conv_truthy]; left; rfl
+        · rw [h', ok_bind, conv_truthy _ _ (typed_val te sp sc hrel b v hwt.1.1.2 hpy)]; left; rfl
         · right; exact ub_bind _ h'
     · right; exact ub_bind _ h
   | not a iha =>
-    simp only [Expr.wt] at hwt
+    simp only [Expr.wt, Bool.and_eq_true] at hwt
     rw [Py.eval] at hpy
     obtain ⟨x, hx, hpy⟩ := bind_ok hpy
     cases hpy
     rw [C.eval]
-    rcases iha x hwt hx with h | h
-    · rw [h, ok_bind, conv_truthy]; left; rfl
+    rcases iha x hwt.1 hx with h | h
+    · rw [h, ok_bind, conv_truthy _ _ (typed_val te sp sc hrel a x hwt.1 hx)]; left; rfl
     · right; exact ub_bind _ h
   | ite c a b ihc iha ihb =>
     have hty := typeOf_eq_inferTy te _ hwt
@@ -285,30 +413,32 @@ theorem expr_sim (te : C.TyEnv) (sp sc : Store) (hrel : Rel te sp sc) (e : Expr)
     rw [Py.eval] at hpy
     obtain ⟨x, hx, hpy⟩ := bind_ok hpy
     rw [C.eval, hty]
-    have hit : inferTy te (.ite c a b) = inferTy te a := by simp only [inferTy, hwt.2, if_true]
+    have hit : inferTy te (.ite c a b) = inferTy te a := by simp only [inferTy, hwt.1.2, if_true]
     rw [hit]
-    rcases ihc x hwt.1.1.1 hx with h | h
-    · rw [h, ok_bind, conv_truthy]
+    rcases ihc x hwt.1.1.1.1 hx with h | h
+    · rw [h, ok_bind, conv_truthy _ _ (typed_val te sp sc hrel c x hwt.1.1.1.1 hx)]
       split at hpy
       · rename_i htr
         rw [if_pos htr]
-        rcases iha v hwt.1.1.2 hpy with h' | h'
+        rcases iha v hwt.1.1.1.2 hpy with h' | h'
         · rw [h', ok_bind]; dsimp only; rw [conv_idem]; left; rfl
         · right; exact ub_bind _ h'
       · rename_i htr
         rw [if_neg htr]
-        rcases ihb v hwt.1.2 hpy with h' | h'
-        · rw [h', ok_bind]; dsimp only; rw [← hwt.2, conv_idem]; left; rfl
+        rcases ihb v hwt.1.1.2 hpy with h' | h'
+        · rw [h', ok_bind]; dsimp only; rw [← hwt.1.2, conv_idem]; left; rfl
         · right; exact ub_bind _ h'
     · right; exact ub_bind _ h
   | abs a iha =>
     simp only [Expr.wt] at hwt
     rw [Py.eval] at hpy
     obtain ⟨x, hx, hpy⟩ := bind_ok hpy
+    obtain ⟨n, hn, hpy⟩ := bind_ok hpy
+    obtain ⟨rfl, _⟩ := num_ok hn
     cases hpy
     rw [C.eval]
     rcases iha x hwt hx with h | h
-    · rw [h, ok_bind, conv_toInt _ x (fun ht => bool_val te sp sc hrel a x hwt ht hx)]
+    · rw [h, ok_bind, conv_toInt _ x (typed_val te sp sc hrel a x hwt hx)]
       simp only [inferTy, conv_int_int]
       by_cases hpos : x.toInt > 0
       · rw [if_pos hpos]; left
@@ -325,6 +455,9 @@ theorem expr_sim (te : C.TyEnv) (sp sc : Store) (hrel : Rel te sp sc) (e : Expr)
     rw [Py.eval] at hpy
     obtain ⟨x, hx, hpy⟩ := bind_ok hpy
     obtain ⟨y, hy, hpy⟩ := bind_ok hpy
+    have htx := typed_val te sp sc hrel a x hwt.1.1.1 hx
+    have hty' := typed_val te sp sc hrel b y hwt.1.1.2 hy
+    rw [pyPick_num (holds_num htx (by rw [hwt.1.2]; decide)) (holds_num hty' (by rw [hwt.2]; decide))] at hpy
     cases hpy
     rw [C.eval, hty]
     rcases iha x hwt.1.1.1 hx with h | h
@@ -335,6 +468,18 @@ theorem expr_sim (te : C.TyEnv) (sp sc : Store) (hrel : Rel te sp sc) (e : Expr)
         show Except.ok (Val.int (k.cpick (.int x.toInt) (.int y.toInt)).toInt) = .ok (Val.int (k.pick x y).toInt)
         rw [cpick_toInt]
       · right; exact ub_bind _ h'
+    · right; exact ub_bind _ h
+  | toStr a iha =>
+    simp only [Expr.wt, Bool.and_eq_true, bne_iff_ne, ne_eq] at hwt
+    rw [Py.eval] at hpy
+    obtain ⟨x, hx, hpy⟩ := bind_ok hpy
+    obtain ⟨t, ht, hpy⟩ := bind_ok hpy
+    cases hpy
+    rw [C.eval]
+    rcases iha x hwt.1 hx with h | h
+    · rw [h, ok_bind]
+      left
+      rw [pure_eq_ok, pyStr_text (typed_val te sp sc hrel a x hwt.1 hx) hwt.2 ht]; rfl
     · right; exact ub_bind _ h
 
 end Reduino.Lemmas.C01
